@@ -10,6 +10,7 @@ git -C $S/repo apply "$PATCH"
 rsync -a --exclude work --exclude replays --exclude .git /verif/ $S/verif/
 cd $S/verif
 PYRTL_REPO=$S/repo ./check $ID --tier $TIER > $S/out.txt 2>&1 || true
+[ -n "$KEEP_OUT" ] && cp $S/out.txt "$KEEP_OUT" && cp -r $S/verif/replays "$KEEP_OUT.replays" 2>/dev/null
 grep -E "^(VIOLATION|KNOWN-FINDING|$ID tier)" $S/out.txt || tail -5 $S/out.txt
 for r in $(grep -o 'replay=[^ ]*' $S/out.txt | cut -d= -f2 | head -2); do echo "--- $r"; python3 -c "
 import json,sys; d=json.load(open('$r')); print(json.dumps({k:(v if k!='replay' else '...') for k,v in d.items()})[:600])"; done
